@@ -9,31 +9,31 @@ ALWAYS_OK = set()
 
 VARIANTS = {
     # common::Error
-    "InvalidRemainingLength": {"payload": [], "where": ["v3::*", "v5::*", "*::poll"], "min_sites": 8},
-    "EmptySubscription": {"payload": [], "where": ["v3::subscribe::*", "v5::subscribe::*"], "min_sites": 4},
+    "InvalidRemainingLength": {"payload": [], "where": ["v3::*", "v5::*", "*::poll"], "min_sites": 1},
+    "EmptySubscription": {"payload": [], "where": ["v3::subscribe::*", "v5::subscribe::*"], "min_sites": 1},
     "ZeroPid": {"payload": [], "where": ["common::types::*", "<common::types::Pid*"], "min_sites": 1},
-    "InvalidQos": {"payload": ["tested"], "where": ["common::types::*", "v3::subscribe::*"], "min_sites": 2},
-    "InvalidConnectFlags": {"payload": ["tested"], "where": ["v3::connect::*", "v5::connect::*"], "min_sites": 2},
-    "InvalidConnackFlags": {"payload": ["tested"], "where": ["v3::connect::*", "v5::connect::*"], "min_sites": 2},
+    "InvalidQos": {"payload": ["tested"], "where": ["common::types::*", "v3::subscribe::*"], "min_sites": 1},
+    "InvalidConnectFlags": {"payload": ["tested"], "where": ["v3::connect::*", "v5::connect::*"], "min_sites": 1},
+    "InvalidConnackFlags": {"payload": ["tested"], "where": ["v3::connect::*", "v5::connect::*"], "min_sites": 1},
     "InvalidConnectReturnCode": {"payload": ["tested"], "where": ["v3::connect::*"], "min_sites": 1},
     "InvalidProtocol": {"payload": ["tested", "tested"], "where": ["common::types::*"], "min_sites": 1},
-    "UnexpectedProtocol": {"payload": ["tested"], "where": ["v3::connect::*", "v5::connect::*"], "min_sites": 2},
-    "InvalidHeader": {"payload": [], "where": ["v3::packet::*", "v5::packet::*"], "min_sites": 2},
-    "InvalidVarByteInt": {"payload": [], "where": ["common::utils::*", "v5::types::*", "<v5::types::*", "*::poll"], "min_sites": 3},
+    "UnexpectedProtocol": {"payload": ["tested"], "where": ["v3::connect::*", "v5::connect::*"], "min_sites": 1},
+    "InvalidHeader": {"payload": [], "where": ["v3::packet::*", "v5::packet::*"], "min_sites": 1},
+    "InvalidVarByteInt": {"payload": [], "where": ["common::utils::*", "v5::types::*", "<v5::types::*", "*::poll"], "min_sites": 1},
     "InvalidTopicName": {"payload": ["tested"], "where": ["common::types::*", "<common::types::*"], "min_sites": 1},
     "InvalidTopicFilter": {"payload": ["tested"], "where": ["common::types::*", "<common::types::*"], "min_sites": 1},
-    "InvalidString": {"payload": [], "where": ["common::utils::*", "common::types::*"], "min_sites": 2},
-    "IoError": {"payload": ["kind", "kind"], "where": ["*"], "min_sites": 4},
+    "InvalidString": {"payload": [], "where": ["common::utils::*", "common::types::*"], "min_sites": 1},
+    "IoError": {"payload": ["kind", "kind"], "where": ["*"], "min_sites": 1},
     # v5::ErrorV5
-    "InvalidReasonCode": {"payload": ["context", "tested"], "where": ["v5::*"], "min_sites": 9},
-    "InvalidSubscriptionOption": {"payload": ["tested"], "where": ["v5::subscribe::*"], "min_sites": 2},
-    "InvalidPayloadFormat": {"payload": [], "where": ["v5::publish::*", "v5::connect::*"], "min_sites": 2},
-    "InvalidResponseTopic": {"payload": [], "where": ["v5::*"], "min_sites": 2},
+    "InvalidReasonCode": {"payload": ["context", "tested"], "where": ["v5::*"], "min_sites": 1},
+    "InvalidSubscriptionOption": {"payload": ["tested"], "where": ["v5::subscribe::*"], "min_sites": 1},
+    "InvalidPayloadFormat": {"payload": [], "where": ["v5::publish::*", "v5::connect::*"], "min_sites": 1},
+    "InvalidResponseTopic": {"payload": [], "where": ["v5::*"], "min_sites": 1},
     "InvalidPropertyId": {"payload": ["tested"], "where": ["v5::types::*"], "min_sites": 1},
-    "InvalidPropertyLength": {"payload": ["tested"], "where": ["v5::*"], "min_sites": 10},
-    "InvalidByteProperty": {"payload": ["context", "tested"], "where": ["v5::*"], "min_sites": 2},
-    "DuplicatedProperty": {"payload": ["context"], "where": ["v5::*"], "min_sites": 6},
-    "InvalidProperty": {"payload": ["context", "context"], "where": ["v5::*"], "min_sites": 10},
+    "InvalidPropertyLength": {"payload": ["tested"], "where": ["v5::*"], "min_sites": 1},
+    "InvalidByteProperty": {"payload": ["context", "tested"], "where": ["v5::*"], "min_sites": 1},
+    "DuplicatedProperty": {"payload": ["context"], "where": ["v5::*"], "min_sites": 1},
+    "InvalidProperty": {"payload": ["context", "context"], "where": ["v5::*"], "min_sites": 1},
     "InvalidWillProperty": {"payload": ["context"], "where": ["v5::connect::*"], "min_sites": 1},
 }
 
